@@ -1,4 +1,5 @@
 import RavenModel.Model.MailInv
+import RavenModel.Model.MailMono
 /-! # C03 — UIDs are unique, ascending and never reused; UIDNEXT tells the truth
 
 Property theorems only; the machine is `Model/Mail.lean`, its invariant `Model/MailInv.lean`.
@@ -81,6 +82,29 @@ theorem validity_fresh_refuted : ¬ validity_fresh_full := by
     { name := (b!"tmp"), validity := 9, uidNext := 1, links := [], inc := 5 } (by decide)
     { name := (b!"tmp"), validity := 9, uidNext := 1, links := [], inc := 6 } (by decide) rfl rfl
   exact absurd this (by decide)
+
+/-- C03.6  UIDNEXT never goes back: however the history continues, a mailbox incarnation that is still there advertises a
+UIDNEXT at least as large as it did before (so a client that cached UIDNEXT never sees a smaller one under the same
+UIDVALIDITY incarnation). -/
+theorem uidnext_monotone (now : Nat) (ops more : List Op) :
+    ∀ b ∈ (reach now ops).boxes, ∀ b' ∈ (reach now (ops ++ more)).boxes, b'.inc = b.inc → b.uidNext ≤ b'.uidNext := by
+  have hrun : reach now (ops ++ more) = run (reach now ops) more := by simp [reach, run, List.foldl_append]
+  rw [hrun]
+  exact uidNext_le_of_desc (reach_inv now ops) (desc_run more _)
+
+/-- C03.6'  …and every mailbox of the continued history is either such a survivor or a new incarnation, numbered from the
+earlier store's counter upwards: an incarnation number is never handed out twice. -/
+theorem incarnation_descends (now : Nat) (ops more : List Op) :
+    ∀ b' ∈ (reach now (ops ++ more)).boxes,
+      (∃ b ∈ (reach now ops).boxes, b.inc = b'.inc ∧ b.uidNext ≤ b'.uidNext) ∨ (reach now ops).nextInc ≤ b'.inc := by
+  have hrun : reach now (ops ++ more) = run (reach now ops) more := by simp [reach, run, List.foldl_append]
+  rw [hrun]
+  exact (desc_run more _).2
+
+-- non-vacuity of C03.6: INBOX survives an EXPUNGE of everything and a RENAME of INBOX with its UIDNEXT intact
+example : ((reach 1 [.add (b!"INBOX") 1 [b!"\\Deleted"], .add (b!"INBOX") 2 []]).boxes.map (fun b => (b.inc, b.uidNext))).head? = some (0, 3) ∧
+    ((reach 1 ([.add (b!"INBOX") 1 [b!"\\Deleted"], .add (b!"INBOX") 2 []] ++ [.expunge (b!"INBOX"), .rename (b!"INBOX") (b!"Old") 2])).boxes.map
+      (fun b => (b.inc, b.uidNext))).head? = some (0, 3) := by decide
 
 -- non-vacuity: a concrete history in which UIDs are assigned by all four routes
 example : ((reach 1 [.add (b!"INBOX") 1 [], .add (b!"INBOX") 2 [], .copy (b!"INBOX") [1, 2] (b!"Sent"),
